@@ -82,7 +82,9 @@ F3 = "stale_jacobian_of_cache_hit_at_linearize_execute_false"
 # --------------------------------------------------------------------------- generators
 def _op(n_reopen=1):
     return st.fixed_dictionaries({
-        "op": st.sampled_from(["exec"] * 9 + ["lin"] * 7 + ["diff"] * 2 + ["setdef", "clear"] + ["reopen"] * n_reopen),
+        "op": st.sampled_from(["exec"] * 9 + ["lin"] * 7 + ["diff"] * 2 + ["setdef", "clear", "setcache", "setcache", "linx", "linx"] + ["reopen"] * n_reopen),
+        "new_cache": st.sampled_from(["same", "same", "simple", "memory", "memory_shared", "hdf5"]),  # for setcache
+        "new_tol": st.sampled_from([0, 0, 1, 2]),
         "again": st.sampled_from([False, False, False, True, True]),
         "base": st.integers(0, 3),
         "pert": st.sampled_from([0, 0, 0, 1, 1, 2, 3]),
@@ -122,6 +124,8 @@ def histories(caches, n_reopen=1):
         "scalar_out": st.booleans(),      # a float-typed (non-array) output
         "a_default": st.booleans(),       # every input has a default: execute({}) is reachable
         "rev_defaults": st.booleans(),    # defaults inserted in the reverse of the grammar order
+        # Jacobians approximated by finite differences (effective with tolerance 0 and a body returning new arrays)
+        "lin_mode": st.sampled_from(["analytic", "analytic", "finite_differences"]),
         "inplace_body": st.sampled_from([False, False, True]),    # the body of a self-coupled discipline updates the received array of y in place
     })
     return st.fixed_dictionaries({
@@ -145,6 +149,11 @@ def in_specs(cfg):
 def inplace_body(cfg) -> bool:
     """Whether the body updates the self-coupled input array in place (and returns that same array)."""
     return bool(cfg.get("inplace_body")) and bool(cfg["self_coupled"])
+
+
+def approximated(cfg) -> bool:
+    """Whether linearize approximates the Jacobian by finite differences (step 1e-7)."""
+    return cfg.get("lin_mode", "analytic") != "analytic" and cfg["tol"] == 0 and not inplace_body(cfg)
 
 
 _Z2 = np.zeros(2)
@@ -288,7 +297,16 @@ def plan(p):
     inplace = False
     previous = None
     steps = []
+    expanded = []
     for op in p["ops"]:
+        if op["op"] == "linx":
+            # a linearisation without prior execution with the caller's persistent arrays (Jacobian cached first),
+            # then these arrays are rewritten in place for an execution at another point of the pool
+            expanded.append(dict(op, op="lin", held=True, exe=False, free=True, again=False))
+            expanded.append(dict(op, op="exec", held=True, again=False, base=op["base"] + 1 + op["var"]))
+        else:
+            expanded.append(op)
+    for op in expanded:
         kind = op["op"]
         if kind in ("exec", "lin"):
             base = pool[op["base"] % len(pool)]
@@ -326,6 +344,9 @@ def plan(p):
             steps.append({"kind": "setdef", "name": n, "value": [k * GRID + 0.0 for k in pool[op["base"] % len(pool)][n]]})
         elif kind == "clear":
             steps.append({"kind": "clear"})
+        elif kind == "setcache":
+            # approximated Jacobians store perturbed inputs in the cache: only exact matching is used with them
+            steps.append({"kind": "setcache", "cache": op.get("new_cache", "same"), "tol": 0 if approximated(cfg) else op.get("new_tol", 0)})
         elif kind == "reopen":
             steps.append({"kind": "reopen", "forget": op["forget"]})
     return steps, inplace
@@ -336,6 +357,12 @@ def dense(m):
     from scipy.sparse import issparse
 
     return m.toarray() if issparse(m) else np.asarray(m)
+
+
+def close(a, b) -> bool:
+    """Equality up to the error of a forward finite difference with step 1e-7 on the harness body."""
+    a, b = np.asarray(a, dtype=float), np.asarray(b, dtype=float)
+    return a.shape == b.shape and bool(np.allclose(a, b, rtol=1e-5, atol=1e-4))
 
 
 def same(a, b) -> bool:
@@ -404,15 +431,24 @@ class Machine:
         self.last_key = None  # completed input of the previous call on the current discipline object
         self.has_outputs = False  # the current discipline object holds output values in its local data
         self.inplace_y = inplace_body(cfg)
+        self.approx = approximated(cfg)
+        self.plan_delta = self.tol / 8.0 if self.tol else 2.0**-20  # spacing of the perturbed points of one grid class
+        self.n_files = 0
         self.flags = Counter()
         cls = harness_class(cfg["grammar"])
         self.cls = cls
         self.disc = self._new_discipline()
         self.twin = cls(cfg, self.defaults, self.twin_log)
         self.twin.set_cache(cls.CacheType.NONE)
+        if self.approx:
+            self._approximate(self.twin)
 
-    def _new_discipline(self):
-        d = self.cls(self.cfg, self.defaults, self.log)
+    @staticmethod
+    def _approximate(d):
+        d.set_jacobian_approximation(d.ApproximationMode.FINITE_DIFFERENCES)
+        d.linearization_mode = d.ApproximationMode.FINITE_DIFFERENCES
+
+    def _set_cache(self, d):
         kind = self.kind
         if kind == "none":
             d.set_cache(d.CacheType.NONE)
@@ -422,6 +458,12 @@ class Machine:
             d.set_cache(d.CacheType.HDF5, tolerance=self.tol, hdf_file_path=self.file, hdf_node_path=self.cfg["node"])
         else:
             d.set_cache(d.CacheType.MEMORY_FULL, tolerance=self.tol, is_memory_shared=(kind == "memory_shared"))
+
+    def _new_discipline(self):
+        d = self.cls(self.cfg, self.defaults, self.log)
+        self._set_cache(d)
+        if self.approx:
+            self._approximate(d)
         if self.diff_ins:
             d.add_differentiated_inputs(list(self.diff_ins))
             d.add_differentiated_outputs(list(self.diff_outs))
@@ -438,19 +480,26 @@ class Machine:
         return x
 
     def class_key(self, x):
-        """Grid class of a completed input (a[0] rounded to the grid: perturbations are < GRID/100)."""
+        """Grid class of a completed input (components rounded to the grid: perturbations are < GRID/100)."""
         parts = []
         for n in self.names:
-            v = np.array(x[n], dtype=float)
-            if n == "a":
-                v[0] = np.round(v[0] / GRID) * GRID + 0.0
+            v = np.round(np.array(x[n], dtype=float) / GRID) * GRID + 0.0
             parts.append((n, v.tobytes()))
         return tuple(parts)
+
+    def within_tolerance(self) -> bool:
+        """Whether the points of one grid class are within the current tolerance of each other.
+
+        The classes were laid out for the tolerance drawn with the case (spacing plan_delta, at most 3 steps apart);
+        after a set_cache with another tolerance they are either all within it (3 * plan_delta <= tolerance) or all
+        far beyond it (plan_delta >= 10 * tolerance * (1 + norm), norm <= 10).
+        """
+        return self.tol > 0.0 and 3.0 * self.plan_delta <= self.tol
 
     def candidates(self, x):
         """Inputs whose results the discipline may return for x."""
         cands = [x]
-        if self.tol > 0.0 and self.kind != "none":
+        if self.within_tolerance() and self.kind != "none":
             kx = key_of(x)
             for k in self.seen_class.get(self.class_key(x), []):
                 if k != kx:
@@ -466,6 +515,7 @@ class Machine:
     # ----- steps
     def call(self, step):
         ctx, cfg = self.ctx, self.cfg
+        jsame = close if self.approx else same
         passed_vals = step["passed"]
         x = self.complete(passed_vals)
         kx = key_of(x)
@@ -543,7 +593,7 @@ class Machine:
                 ctx.check(n in twin_got and same(twin_got[n], ref_out[n]), "uncached_twin", f"uncached twin returned {n}={twin_got.get(n)!r}, body gives {ref_out[n]!r}", step=step)
         if lin:
             for (o, i), m in twin_jac.items():
-                ctx.check(same(m, ref_jac[o][i]), "uncached_twin", f"uncached twin returned d{o}/d{i}={m!r}, body gives {ref_jac[o][i]!r}", step=step)
+                ctx.check(jsame(m, ref_jac[o][i]), "uncached_twin", f"uncached twin returned d{o}/d{i}={m!r}, body gives {ref_jac[o][i]!r}", step=step)
         # ---- outputs of the discipline under test
         cands = self.candidates(x)
         if got is not None:
@@ -564,9 +614,9 @@ class Machine:
         # ---- requested Jacobian blocks
         if lin:
             req_in, req_out = requested
-            jmatches = [c for c in cands if all(same(got_jac[(o, i)], body_jac(c)[o][i]) for o in req_out for i in req_in)]
+            jmatches = [c for c in cands if all(jsame(got_jac[(o, i)], body_jac(c)[o][i]) for o in req_out for i in req_in)]
             if not jmatches:
-                bad = [(o, i) for o in req_out for i in req_in if not same(got_jac[(o, i)], ref_jac[o][i])]
+                bad = [(o, i) for o in req_out for i in req_in if not jsame(got_jac[(o, i)], ref_jac[o][i])]
                 o, i = bad[0]
                 ctx.fail("jacobian", f"linearize returned d{o}/d{i}={got_jac[(o, i)].tolist()} at input { {n: x[n].tolist() for n in x} }; "
                                      f"exact block {ref_jac[o][i].tolist()}" + (" (no earlier input within the tolerance matches either)" if self.tol else ""),
@@ -585,7 +635,7 @@ class Machine:
             self.flags["exact_repeat"] += 1
             if ran == 0:
                 self.flags["exact_repeat_served_without_run"] += 1
-        elif class_seen and self.tol > 0:
+        elif class_seen and self.within_tolerance():
             self.flags["near_repeat_within_tolerance"] += 1
         if step["held"] and step["modifies"]:
             self.flags["inplace_modified_caller_array" + ("_degraded_to_fresh" if self.degrade else "")] += 1
@@ -625,6 +675,30 @@ class Machine:
         self.ctx.check(len(cache) == 0, "clear", f"len(cache)={len(cache)} after clear()")
         del self.log[:]
         self.flags["clear"] += 1
+
+    def setcache(self, step):
+        """discipline.set_cache(...) in the middle of the history: from then on a fresh cache of the requested policy."""
+        if self.kind == "none":
+            return
+        new_kind = self.kind if step["cache"] == "same" else step["cache"]
+        same_type = CACHE_TYPES[new_kind] == CACHE_TYPES[self.kind]
+        self.kind = new_kind
+        self.tol = TOLS[step["tol"]]
+        if new_kind == "hdf5":
+            # a new file: set_cache with the file and node of the current HDF5Cache documents that it keeps that cache
+            self.n_files += 1
+            self.file = os.path.join(os.path.dirname(self.file), f"cache{self.n_files}.h5")
+        old = self.disc.cache
+        self._set_cache(self.disc)
+        new = self.disc.cache
+        self.ctx.check(new is not None and type(new).__name__ == CACHE_TYPES[new_kind], "set_cache",
+                       f"after set_cache({CACHE_TYPES[new_kind]!r}) the cache is {type(new).__name__}")
+        self.ctx.check(float(new.tolerance) == self.tol, "set_cache",
+                       f"after set_cache({CACHE_TYPES[new_kind]!r}, tolerance={self.tol}) cache.tolerance is {new.tolerance} "
+                       f"(the previous cache was a {type(old).__name__} with tolerance {old.tolerance})")
+        self.ctx.check(len(new) == 0, "set_cache", f"after set_cache({CACHE_TYPES[new_kind]!r}) the new cache holds {len(new)} entries")
+        del self.log[:]  # a fresh cache may run the body again for earlier inputs
+        self.flags["set_cache_same_type" if same_type else "set_cache_other_type"] += 1
 
     def reopen(self, step):
         if self.kind != "hdf5":
@@ -714,13 +788,15 @@ def case_transparency(p, ctx):
                 m.setdef(step)
             elif kind == "clear":
                 m.clear()
+            elif kind == "setcache":
+                m.setcache(step)
             elif kind == "reopen":
                 m.reopen(step)
         m.sweep()
         # ---- classification
         f = m.flags
         cache = m.disc.cache
-        if cfg["cache"] in FULL and cache is not None and any(len(v) > 1 for v in cache._hashes_to_indices.values()):
+        if m.kind in FULL and cache is not None and any(len(v) > 1 for v in cache._hashes_to_indices.values()):
             f["hash_bucket_with_several_entries"] += 1
         ctx.cls("cache=" + cfg["cache"], f"tolerance={TOLS[cfg['tol']]:g}")
         for name in sorted(f):
@@ -738,7 +814,9 @@ def case_transparency(p, ctx):
             ctx.cls("defaults_in_reverse_grammar_order")
         if m.inplace_y:
             ctx.cls("body_updates_self_coupled_input_in_place")
-        if cfg["weak_hash"] and cfg["cache"] in FULL:
+        if m.approx:
+            ctx.cls("jacobian_approximated_by_finite_differences")
+        if cfg["weak_hash"] and (cfg["cache"] in FULL or m.kind in FULL):
             ctx.cls("colliding_hash")
         inplace_done = f["inplace_modified_caller_array"] > 0
         if f["exact_repeat"] and inplace_done and f["linearize"]:
@@ -754,10 +832,225 @@ def case_transparency(p, ctx):
         shutil.rmtree(case_dir, ignore_errors=True)
 
 
+# =========================================================================== process discipline (chain) as the subject
+F4 = "chain_tolerance_hook_lost_after_set_cache"
+F5 = "chain_cache_hit_then_members_linearised_at_their_last_inputs"
+
+
+def chain_ref(x):
+    """Outputs of the chain d1: x -> y, d2: (y, x) -> z."""
+    y = np.array([x[0] * x[0] + x[1], x[0] * x[1] + 2.0 * x[1]])
+    z = np.array([3.0 * y[0] + y[1] * y[1] + x[0]])
+    return {"y": y, "z": z}
+
+
+def chain_ref_jac(x):
+    y = chain_ref(x)["y"]
+    dy = np.array([[2.0 * x[0], 1.0], [x[1], x[0] + 2.0]])
+    dz = np.array([[3.0, 2.0 * y[1]]]) @ dy + np.array([[1.0, 0.0]])
+    return {"y": dy, "z": dz}
+
+
+_CHAIN_CLASSES = {}
+
+
+def chain_classes():
+    if _CHAIN_CLASSES:
+        return _CHAIN_CLASSES
+    from gemseo.core.discipline.discipline import Discipline
+
+    class D1(Discipline):
+        def __init__(self):
+            super().__init__("d1")
+            self.io.input_grammar.update_from_data({"x": np.zeros(2)})
+            self.io.output_grammar.update_from_data({"y": np.zeros(2)})
+            self.n_run = 0
+
+        def _run(self, input_data):
+            self.n_run += 1
+            return {"y": chain_ref(input_data["x"])["y"]}
+
+        def _compute_jacobian(self, input_names=(), output_names=()):
+            self.jac = {"y": {"x": chain_ref_jac(self.io.data["x"])["y"]}}
+
+    class D2(Discipline):
+        def __init__(self):
+            super().__init__("d2")
+            self.io.input_grammar.update_from_data({"y": np.zeros(2), "x": np.zeros(2)})
+            self.io.output_grammar.update_from_data({"z": np.zeros(1)})
+            self.n_run = 0
+
+        def _run(self, input_data):
+            self.n_run += 1
+            x, y = input_data["x"], input_data["y"]
+            return {"z": np.array([3.0 * y[0] + y[1] * y[1] + x[0]])}
+
+        def _compute_jacobian(self, input_names=(), output_names=()):
+            y = self.io.data["y"]
+            self.jac = {"z": {"y": np.array([[3.0, 2.0 * y[1]]]), "x": np.array([[1.0, 0.0]])}}
+
+    _CHAIN_CLASSES.update(d1=D1, d2=D2)
+    return _CHAIN_CLASSES
+
+
+def chain_histories():
+    sub = st.fixed_dictionaries({"cache": st.sampled_from(["simple", "memory", "memory_shared"]), "tol": st.sampled_from([0, 1, 2, 2])})
+    op = st.fixed_dictionaries({
+        "op": st.sampled_from(["exec"] * 4 + ["lin"] * 5 + ["tol"] * 3 + ["setcache", "mode"]),
+        "pt": st.integers(0, 3), "v": st.sampled_from([0, 0, 0, 1, 2]), "cache": st.sampled_from(["simple", "memory"]),
+        "fd": st.booleans(),
+    })
+    return st.fixed_dictionaries({
+        "subs": st.lists(sub, min_size=2, max_size=2),
+        "fd": st.booleans(),
+        "pool": st.lists(st.lists(st.integers(-6, 6), min_size=2, max_size=2), min_size=2, max_size=4),
+        "ops": st.lists(op, min_size=3, max_size=12),
+    })
+
+
+def case_chain(p, ctx):
+    """An MDOChain of two cached disciplines against a fully uncached twin and the numpy reference.
+
+    All points lie on the 0.25 grid and are at least 0.0625 apart at every level of the chain, so that tolerance based
+    matching (<= 1e-3) never merges two requested inputs: executions are exact whatever the tolerances (up to 1e-4 once
+    perturbed points were executed); the tolerances otherwise only matter for the perturbed executions (step 1e-7) of an
+    approximated Jacobian, for which gemseo documents that the
+    cache tolerance is temporarily set to zero and that a process discipline propagates a change of its cache tolerance to
+    the caches of its disciplines.
+    """
+    from gemseo.core.chains.chain import MDOChain
+
+    cls = chain_classes()
+
+    def make(cached):
+        d1, d2 = cls["d1"](), cls["d2"]()
+        for d, spec in zip((d1, d2), p["subs"]):
+            if not cached:
+                d.set_cache(d.CacheType.NONE)
+            elif spec["cache"] == "simple":
+                d.set_cache(d.CacheType.SIMPLE, tolerance=TOLS[spec["tol"]])
+            else:
+                d.set_cache(d.CacheType.MEMORY_FULL, tolerance=TOLS[spec["tol"]], is_memory_shared=spec["cache"] == "memory_shared")
+        chain = MDOChain([d1, d2])
+        if not cached:
+            chain.set_cache(chain.CacheType.NONE)
+        return chain, (d1, d2)
+
+    def set_mode(chain, fd):
+        if fd:
+            chain.set_jacobian_approximation(chain.ApproximationMode.FINITE_DIFFERENCES)
+            chain.linearization_mode = chain.ApproximationMode.FINITE_DIFFERENCES
+        else:
+            chain.linearization_mode = chain.LinearizationMode.AUTO
+
+    chain, subs = make(True)
+    twin, _ = make(False)
+    fd = bool(p["fd"])
+    for c in (chain, twin):
+        set_mode(c, fd)
+    hook_lost = False
+    chain_full = False
+    ever_fd = fd
+    chain_seen, chain_jac = set(), set()  # points requested / linearised since the chain's cache was created (full cache)
+    members_at = None  # point of the last request that really executed the members (None: unknown or a perturbed point)
+    flags = Counter()
+    pool = []
+    for pt in p["pool"]:
+        if pt not in pool:
+            pool.append(pt)
+    for op in p["ops"]:
+        kind = op["op"]
+        if kind == "tol":
+            same_value = float(chain.cache.tolerance) == TOLS[op["v"]]
+            chain.cache.tolerance = TOLS[op["v"]]
+            flags["tolerance_assigned_same_value" if same_value else "tolerance_assigned_new_value"] += 1
+            continue
+        if kind == "setcache":
+            if op["cache"] == "simple":
+                chain.set_cache(chain.CacheType.SIMPLE, tolerance=TOLS[op["v"]])
+            else:
+                chain.set_cache(chain.CacheType.MEMORY_FULL, tolerance=TOLS[op["v"]], is_memory_shared=False)
+            ctx.check(float(chain.cache.tolerance) == TOLS[op["v"]], "chain_set_cache", f"chain.cache.tolerance={chain.cache.tolerance} after set_cache(tolerance={TOLS[op['v']]})")
+            hook_lost = True
+            chain_full = op["cache"] != "simple"
+            chain_seen, chain_jac = set(), set()
+            flags["set_cache_on_the_chain"] += 1
+            continue
+        if kind == "mode":
+            fd = bool(op["fd"])
+            ever_fd = ever_fd or fd
+            for c in (chain, twin):
+                set_mode(c, fd)
+            continue
+        x = np.array([k * GRID + 0.0 for k in pool[op["pt"] % len(pool)]])
+        ref, ref_jac = chain_ref(x), chain_ref_jac(x)
+        key = x.tobytes()
+        chain_hit = chain_full and key in chain_seen
+        if kind == "exec":
+            got = {k: np.array(v) for k, v in chain.execute({"x": x.copy()}).items()}
+            tgot = {k: np.array(v) for k, v in twin.execute({"x": x.copy()}).items()}
+            # once perturbed points (x + 1e-7) were executed for an approximated Jacobian they are 'previously seen inputs
+            # within the tolerance' of x for every tolerance >= 1e-7: their outputs (within 1e-4 of those of x, whereas two
+            # grid points differ by >= 0.0625) are then acceptable
+            osame = close if ever_fd else same
+            for n in ("y", "z"):
+                ctx.check(n in tgot and same(tgot[n], ref[n]), "chain_uncached_twin", f"uncached chain returned {n}={tgot.get(n)!r} at x={x.tolist()}, reference {ref[n]!r}")
+                ctx.check(n in got and osame(got[n], ref[n]), "chain_outputs", f"cached chain returned {n}={got.get(n)!r} at x={x.tolist()}, reference {ref[n]!r}",
+                          subs=p["subs"], chain_cache=type(chain.cache).__name__, chain_tolerance=float(chain.cache.tolerance))
+            flags["execute"] += 1
+            if not chain_hit:
+                members_at = key
+            chain_seen.add(key)
+            continue
+        # ---- linearize
+        sub_tols = [float(d.cache.tolerance) for d in subs]
+        if fd and hook_lost and max(sub_tols) >= 1e-7:
+            # the cache created by chain.set_cache() no longer propagates its tolerance: the perturbed executions hit the
+            # entries of the members within their tolerance (known finding C05-F4)
+            flags["approximated_jacobian_after_set_cache_with_member_tolerance"] += 1
+            if ctx.known(F4):
+                continue
+        if not fd and chain_hit and key not in chain_jac and members_at != key:
+            # a hit of the chain's own full cache does not execute the members, which are then linearised at the inputs of
+            # their last execution (known finding C05-F5)
+            flags["analytic_jacobian_after_chain_cache_hit_with_members_elsewhere"] += 1
+            if ctx.known(F5):
+                continue
+        if fd and max(sub_tols) >= 1e-7:
+            flags["approximated_jacobian_with_member_tolerance_above_the_step"] += 1
+        res = chain.linearize({"x": x.copy()}, compute_all_jacobians=True)
+        tres = twin.linearize({"x": x.copy()}, compute_all_jacobians=True)
+        tsame = close if fd else (lambda a, b: np.asarray(a).shape == np.asarray(b).shape and bool(np.allclose(a, b, rtol=1e-12, atol=1e-12)))
+        # (the chain's cache may serve a Jacobian stored while finite differences were on)
+        jsame = close if ever_fd else (lambda a, b: np.asarray(a).shape == np.asarray(b).shape and bool(np.allclose(a, b, rtol=1e-12, atol=1e-12)))
+        for n in ("y", "z"):
+            ctx.check(n in tres and "x" in tres[n] and tsame(dense(tres[n]["x"]), ref_jac[n]), "chain_uncached_twin",
+                      f"uncached chain returned d{n}/dx={dense(tres[n]['x']).tolist() if n in tres and 'x' in tres[n] else None} at x={x.tolist()}, reference {ref_jac[n].tolist()}")
+            ctx.check(n in res and "x" in res[n], "chain_jacobian", f"cached chain returned no block d{n}/dx")
+            ctx.check(jsame(dense(res[n]["x"]), ref_jac[n]), "chain_jacobian",
+                      f"cached chain returned d{n}/dx={dense(res[n]['x']).tolist()} at x={x.tolist()}, reference {ref_jac[n].tolist()} "
+                      f"({'finite differences' if fd else 'analytic'}; member tolerances before the call {sub_tols}, chain cache "
+                      f"{type(chain.cache).__name__} tolerance {float(chain.cache.tolerance)})", subs=p["subs"])
+        flags["linearize_approximated" if fd else "linearize_analytic"] += 1
+        if fd:
+            members_at = None
+        elif not chain_hit:
+            members_at = key
+        chain_seen.add(key)
+        chain_jac.add(key)
+    for name in sorted(flags):
+        ctx.cls("chain:history_with_" + name)
+    if flags["approximated_jacobian_with_member_tolerance_above_the_step"] and flags["execute"]:
+        ctx.nontriv(("chain", p))
+        ctx.cls("chain:nontrivial")
+    ctx.sample({"oracle": "chain", "case": p})
+
+
 ORACLES = {
     "transparency_light": case_transparency,
     "transparency_memory": case_transparency,
     "transparency_hdf5": case_transparency,
+    "chain": case_chain,
 }
 
 
@@ -765,3 +1058,4 @@ def run(ctx):
     ctx.drive("transparency_light", histories(["none", "simple", "simple"]), case_transparency, quick=180, thorough=3000)
     ctx.drive("transparency_memory", histories(["memory_shared", "memory"]), case_transparency, quick=180, thorough=3000)
     ctx.drive("transparency_hdf5", histories(["hdf5"], n_reopen=4), case_transparency, quick=160, thorough=2500)
+    ctx.drive("chain", chain_histories(), case_chain, quick=150, thorough=2000)
